@@ -522,7 +522,28 @@ class _Execution:
                 # the record is written out as GenBank features and read back: areas that start before a gene are
                 # in the new record before that gene is added, the order an annotated file is loaded in
                 bio = rec.to_biopython()
-                new = _MODS["Record"].from_biopython(bio, taxon="bacteria")
+                try:
+                    new = _MODS["Record"].from_biopython(bio, taxon="bacteria")
+                except Exception as err:  # pylint: disable=broad-except
+                    # the features were written by the record itself; if the numbers on them identify the features
+                    # they stand for, reading them back rebuilds the same areas and regions
+                    self.violate("C06-a", "the record could not be rebuilt from the features (and the numbers shown on "
+                                 f"them) that it wrote itself: {type(err).__name__}: {err}",
+                                 sig=f"read-back-raised:{type(err).__name__}:{str(err)[:30]}")
+                    return "abort"
+                # every region refers to its children by number: the same children have to come back
+                old_cands, new_cands = list(rec.get_candidate_clusters()), list(new.get_candidate_clusters())
+                structure = []
+                for regions, cands, subs in ((rec.get_regions(), old_cands, list(rec.get_subregions())),
+                                             (new.get_regions(), new_cands, list(new.get_subregions()))):
+                    structure.append([(sorted(next(i for i, c in enumerate(cands) if c is child) for child in region.candidate_clusters),
+                                       sorted(next(i for i, c in enumerate(subs) if c is child) for child in region.subregions))
+                                      for region in regions])
+                if structure[0] != structure[1]:
+                    self.violate("C06-a", "after writing the record out and reading it back, regions refer to other children "
+                                 f"(0-based indices of candidate clusters, subregions per region): written {structure[0]}, "
+                                 f"read back {structure[1]}", sig="read-back-other-children")
+                    return "abort"
                 old_protos, new_protos = list(rec.get_protoclusters()), list(new.get_protoclusters())
                 old_subs, new_subs = list(rec.get_subregions()), list(new.get_subregions())
                 if len(old_protos) != len(new_protos) or len(old_subs) != len(new_subs) \
